@@ -96,3 +96,10 @@ Example uart_oversize :
   uart_write_old false (new_cpx 5 T_STM32 T_HOST (repeat 0 99)) = (WTooLarge, true) /\
   uart_write true p3 = (WBlocked, true).
 Proof. repeat split; reflexivity. Qed.
+
+(* ---- several writers *)
+Example merge_example : merge_by [1; 0; 0; 1]%nat [[p1; p3]; [p2; p2]] = Some [p2; p1; p3; p2].
+Proof. reflexivity. Qed.
+Example writers_case_example :
+  writers_case [[p1]; [p2]] [1; 0] (frame p2 ++ frame p1) = [1; 1] ++ enc_res (Ok p2) ++ enc_res (Ok p1).
+Proof. reflexivity. Qed.
